@@ -15,23 +15,26 @@ Open Scope Qc_scope.
 Definition C01_full_statement : Prop :=
   forall n, wf n = true -> forall st pa v, deriv_impl n st pa v = deriv n st pa v.
 
-(* HEADLINE.  For every network (any number of nodes, operators, edges, parallel edges, self loops, hierarchy levels, several
-   variables of one node feeding one target), every state vector, every parameter assignment and every variable, the mechanism
-   model computes the Spec's derivative.  The guard consists only of guard_names / guard_labels: they are not
-   needed by the proof (C01_model_full below has no guard) but delimit where the MODEL is faithful to the code — it does not
-   describe clashes between generated names (`weight`, `x_in0`, `a_v1`) and user names, which make the real code raise or
-   compute something else (findings C01-D22, C01-D22b).  (The parser crash class C01-P1 is cured by fix D80; its witness is a
-   regression case.)
+(* HEADLINE — unconditional.  For every well-formed network (any number of nodes, operators, edges, parallel edges, self loops,
+   hierarchy levels, several variables of one node feeding one target, any variable names), every state vector, every
+   parameter assignment and every variable, the mechanism model computes the Spec's derivative.  No guard is left: D3 was
+   repaired by fix D59, the parser class by D80, the clashes between generated and user names by D83 (in-edge names) and
+   D84 (input labels); the model switches Edges.fixed_D3 / fixed_D22 / fixed_D22b are `true`, the former guards hold of every
+   network (C01_guards_trivial) and the former witnesses are regression cases of the correspondence run.
    Pipeline coverage: grouping, merging, matrix / indexed forms, multi-source sum, wiring of producers and edge operator,
    recursive evaluation of algebraic variables; separately proved: hierarchy flattening (the C01_hierarchy theorems), the
    evaluation order of _sort_var_updates (C01_sort_topological, C01_sorted_run_solves, and uniqueness:
-   C01_sorted_run_is_recursive_value, C01_solution_is_value), unique labels (C01_names).  NOT covered by a theorem: the textual rewrite of whole equations
-   through sympy (only its algebraic effect, C01_substitute_input_term) and code printing — exercised by the correspondence
+   C01_sorted_run_is_recursive_value, C01_solution_is_value), unique labels (C01_names).  NOT covered by a theorem: the
+   textual rewrite of whole equations through sympy (only its algebraic effect, C01_substitute_input_term), the renaming
+   between the model's per-operator names and the flat backend labels, and code printing — exercised by the correspondence
    run only. *)
-Theorem C01_full : forall n, wf n = true -> guard n = true ->
-  forall st pa v, deriv_impl n st pa v = deriv n st pa v.
-Proof. exact (fun n _ _ => deriv_impl_full n). Qed.
+Theorem C01_full : forall n, wf n = true -> forall st pa v, deriv_impl n st pa v = deriv n st pa v.
+Proof. exact (fun n _ => deriv_impl_full n). Qed.
 Print Assumptions C01_full.
+
+Theorem C01_guards_trivial : forall n, guard_d3 n = true /\ guard n = true.
+Proof. exact (fun n => conj (guard_d3_when_fixed eq_refl n) (guard_when_names_fixed eq_refl eq_refl n)). Qed.
+Print Assumptions C01_guards_trivial.
 
 Theorem C01_model_full : C01_full_statement.
 Proof. exact (fun n _ => deriv_impl_full n). Qed.
@@ -47,10 +50,8 @@ Theorem C01_input_layer : forall n pa sv v prods, input_impl n pa sv v prods = i
 Proof. exact input_impl_full. Qed.
 Print Assumptions C01_input_layer.
 
-(* PREPARED for the two proposed repairs /verif/fixes/proposed_fix_C01_D22.diff and _D22b.diff (generated in-edge names and
-   input labels made unique against user names): with the switches Edges.fixed_D22 and Edges.fixed_D22b on, the guard holds of
-   every network and C01_full is unconditional.  (Both patches validated on scratch worktrees with the switches on: ./check C01
-   green with the names / labels streams as regression streams.) *)
+(* generic in the switches (fixes D83 / D84: generated in-edge names and input labels made unique against user names): with
+   Edges.fixed_D22 and Edges.fixed_D22b on, the former name-clash guard holds of every network *)
 Theorem C01_full_unconditional_when_names_fixed : fixed_D22 = true -> fixed_D22b = true ->
   forall n, wf n = true -> guard n = true /\ forall st pa v, deriv_impl n st pa v = deriv n st pa v.
 Proof. exact (fun H1 H2 n _ => conj (guard_when_names_fixed H1 H2 n) (deriv_impl_full n)). Qed.
